@@ -35,16 +35,18 @@ def event_at(path, line):
     return {}
 
 
-def validate(ctx, module, cfg, trace, classify=None, timeout=900, max_known=8):
+def validate(ctx, module, cfg, trace, classify=None, timeout=900, max_known=40):
     """validate a recorded trace; a rejected scenario that matches a registered known finding
-    (classify(event) -> key) is reported once, cut out, and the rest is validated again.
-    Returns True when everything (else) was accepted."""
+    (classify(event) -> key) is reported once and skipped: validation continues with the
+    scenarios after it (scenarios are independent, everything before the rejected line was
+    accepted). Returns True when everything (else) was accepted."""
     cur, rounds = trace, 0
     while True:
         res = ctx.tlc_trace(module, cfg, cur, timeout=timeout, extra_env=TRACE_ENV)
         if res["accepted"]:
             return True
-        ev = event_at(cur, res.get("line", 0))
+        line = res.get("line", 0)
+        ev = event_at(cur, line)
         key = classify(ev) if classify else None
         what = "%s; event %s" % (res.get("reason", ""), json.dumps(ev)[:300])
         if ctx.report_rejection(cur, res, key=key, what=what):
@@ -52,10 +54,21 @@ def validate(ctx, module, cfg, trace, classify=None, timeout=900, max_known=8):
         rounds += 1
         if rounds > max_known:
             raise vlib.Infra("more than %d scenarios rejected as known findings; giving up" % max_known)
-        nxt = os.path.join(ctx.work, "%s.cut%d.ndjson" % (os.path.basename(trace), rounds))
-        if drop_segment(cur, res.get("line", 0), nxt) == 0:
+        lines = open(cur).read().splitlines()
+        rest, before, nseg = [], 0, 0
+        for s, e in _segments(lines):
+            if e < line:
+                before, nseg = e, nseg + 1          # accepted scenarios
+            elif s >= line:
+                rest += lines[s:e]                  # still to be validated
+        ctx.cov["events_validated"] += before
+        ctx.cov["traces_validated_against_impl"] += nseg
+        ctx.cov["scenarios_cut_by_known_findings"] = ctx.cov.get("scenarios_cut_by_known_findings", 0) + 1
+        if not rest:
             return True
-        cur = nxt
+        cur = os.path.join(ctx.work, "%s.rest%d.ndjson" % (os.path.basename(trace), rounds))
+        with open(cur, "w") as f:
+            f.write("\n".join(rest) + "\n")
 
 
 def corrupt_and_expect_rejection(ctx, module, cfg, trace, pick, mutate, timeout=600):
